@@ -96,7 +96,7 @@ def run(pid, tier, replay):
     chk.add_tlc(g)
     # thin the D-Bus mutation corpus in the quick tier (every k-th line), keep everything thorough
     lines = open(dmut).read().splitlines()
-    step = 12 if quick else 2
+    step = 12 if quick else 4
     dsel = [x for i, x in enumerate(lines) if (i + chk.seed) % step == 0]
     dcorp = chk.path("corpus_dbus.ndjson")
     with open(dcorp, "w") as f:
@@ -108,7 +108,7 @@ def run(pid, tier, replay):
             o = json.loads(x)
             f.write(json.dumps({"fmt": "dbus", "sig": "v", "bytes": o["dbus"], "pos": 0, "le": True, "nfds": 0}) + "\n")
     nsig = deep_sig_corpus(chk.path("corpus_sigs.ndjson"))
-    reps = 12 if quick else 60
+    reps = 12 if quick else 30
     total_calls = 0
     entries = 0
     allobs = []
